@@ -3,6 +3,7 @@ package vcrand
 
 import (
 	crand "crypto/rand"
+	"errors"
 	"io"
 	"math/big"
 
@@ -14,7 +15,16 @@ var CryptoBytes int64
 
 type reader struct{}
 
+// FailAt, when > 0, makes the FailAt-th read from now on fail (fault injection: the OS source is unavailable).
+var FailAt int64
+
 func (reader) Read(p []byte) (int, error) {
+	if FailAt > 0 {
+		FailAt--
+		if FailAt == 0 {
+			return 0, errors.New("crypto/rand: injected read failure")
+		}
+	}
 	if vrand.Owned() {
 		return vrand.Read(p)
 	}
